@@ -23,7 +23,8 @@ EXPLANATION = (
     'zero-fills the entry before deSerialize uses it, the binary search keeps lo = -1 / hi = numEntries as exclusive bounds so only '
     'indices 0..n-1 are read, and the scan loop is bounded by numEntries; (4) the weight accumulator of getBookMove is wide enough for (widest stored weight) x (largest entry count of a file) and the random pick is defined for every total (found and fixed defect D12: Random::nextInt never returns for a modulus above 2^30).')
 UNDECIDED = 'that a corrupt file never produces a legal but wrong move; selection probabilities.'
-ASSUMPTIONS = ['MoveGen::pseudoLegalMoves + removeIllegal produce exactly the legal moves (property C01)']
+ASSUMPTIONS = ['MoveGen::pseudoLegalMoves + removeIllegal produce exactly the legal moves (property C01)',
+               'book files are smaller than 2^40 bytes (used only to bound the number of entries under one key in C18.4)']
 
 
 def _strip(t):
@@ -37,6 +38,7 @@ def run(fb, rep, tier):
     c2_tables(fb, rep)
     c3_files(fb, rep)
     c4_weight_sum(fb, rep)
+    c5_file_positions(fb, rep)
 
 
 def c1_validate(fb, rep):
@@ -350,6 +352,9 @@ def _value_bits(ct):
     return _BITS.get(_TYPEDEFS.get(ct, ct))
 
 
+FILE_BITS = 40          # assumption (listed): book files are smaller than 2^40 bytes (1 TiB)
+
+
 def c4_weight_sum(fb, rep):
     """K11/K12: the total weight of the entries of one position is the modulus of the random pick.  A file may hold
     any number of entries under one key (the scan is bounded only by the entry count of the file), so the accumulator
@@ -382,6 +387,9 @@ def c4_weight_sum(fb, rep):
             if isinstance(r, dict) and r.get('k') == 'var':
                 cb = _value_bits(r.get('t'))
                 cbits = cb if cbits is None else max(cbits, cb or 0)
+    # a file of 2^FILE_BITS bytes holds 2^FILE_BITS / entry-size entries, whatever the type of the loop bound is
+    ent_size = 16
+    cbits = None if cbits is None else min(cbits, FILE_BITS - (ent_size.bit_length() - 1))
     for vid, v in sorted(sum_vars.items()):
         have = _value_bits(v.get('t'))
         need = (wbits or 0) + (cbits or 0)
@@ -402,3 +410,75 @@ def c4_weight_sum(fb, rep):
         detail = 'remainder of a 64-bit random number: defined for every non-zero total' if ok else \
             '%s is only defined for a modulus <= 2^30 and the total is not bounded (any number of entries per position)' % how
         rep.ob(clause, 'K12 domain of the random pick', 'getBookMove: the random pick is defined for every total weight the file can produce', ok, R.site(f, e), detail, f.sname)
+
+
+# ----------------------------------------------------------------------------- .5
+
+def c5_file_positions(fb, rep):
+    """K11 width agreement of file positions: the file length comes back from tellg() as a 64-bit value.  Everything
+    derived from it - the entry count, the binary-search bounds, the scan index, the index parameter of readEntry - and
+    the byte offset handed to seekg() must be computed in 64 bits too: an `int` entry count truncates files above 32
+    GiB, and `int * int` for the offset overflows from entry 2^27 on (files above 2 GiB), so that a stored move in
+    the upper part of a well-formed book is never returned (defect D15)."""
+    clause = 'C18.5'
+    ge = fb.find1('Book::getBookEntries')
+    if rep.need(clause, ge, 'Book::getBookEntries') is None:
+        return
+    bodies = [ge] + fb.lambdas_in(ge)
+    # the file length: a local initialised from tellg()
+    flen = set()
+    for _, _, e in ge.events():
+        if e.get('k') == 'decl':
+            for v in e.get('vars', []):
+                if any(n.get('k') == 'call' and cname(n).split('::')[-1] == 'tellg' for n in walk(v.get('init') or {})):
+                    flen.add(v['id'])
+    if rep.need(clause, flen, 'the file length local of getBookEntries (tellg)') is None:
+        return
+    # locals derived from the file length (transitively), in the function and its lambdas
+    derived = {}
+    changed = True
+    names = {}
+    while changed:
+        changed = False
+        for g in bodies:
+            for _, _, e in g.events():
+                if e.get('k') != 'decl':
+                    continue
+                for v in e.get('vars', []):
+                    if v['id'] in derived or v['id'] in flen or v.get('init') is None:
+                        continue
+                    if g is ge and any(n.get('k') == 'var' and (n.get('id') in flen or n.get('id') in derived) for n in walk(v['init'])):
+                        t_ = v.get('ct') or v.get('t')
+                        if _value_bits(t_) is not None:
+                            derived[v['id']] = (v['n'], t_)
+                            changed = True
+    n = 0
+    for vid, (nm, t_) in sorted(derived.items(), key=lambda kv: kv[1][0]):
+        n += 1
+        rep.ob(clause, 'K11 width agreement', 'getBookEntries: `%s`, derived from the file length, is a 64-bit quantity' % nm, (_value_bits(t_) or 0) >= 63, ge.where, 'type %s' % t_, ge.sname)
+    rep.floor(clause, 'locals derived from the file length', n, 4)
+    # index parameters of the lambdas that receive such locals, and the seek offset
+    n_seek = 0
+    for g in bodies:
+        for b, i, e in g.events():
+            if e.get('k') == 'call' and cname(e).split('::')[-1] == 'seekg' and e.get('args'):
+                a0 = _strip(e['args'][0])
+                # resolve a local offset variable to its initialiser
+                if isinstance(a0, dict) and a0.get('k') == 'var':
+                    for _, _, e2 in g.events():
+                        if e2.get('k') == 'decl':
+                            for v in e2.get('vars', []):
+                                if v['id'] == a0.get('id') and v.get('init') is not None:
+                                    a0 = _strip(v['init'])
+                muls = [x for x in walk(a0) if x.get('k') == 'bin' and x.get('op') in ('*', '<<')]
+                if not muls:
+                    continue
+                n_seek += 1
+                narrow = [show(x, 60) for x in muls if (_value_bits(x.get('t')) or 0) < 63]
+                rep.ob(clause, 'K11 width agreement', 'the byte offset handed to seekg is computed in 64 bits', not narrow, R.site(g, e),
+                       'multiplications in a narrower type: %s' % narrow, ge.sname)
+        for p_ in g.d.get('params', []):
+            if g is not ge and _value_bits(p_.get('ct') or p_.get('t')) is not None:
+                rep.ob(clause, 'K11 width agreement', 'the entry index parameter of the read helper is a 64-bit quantity', (_value_bits(p_.get('ct') or p_.get('t')) or 0) >= 63, g.where,
+                       'parameter %s: %s' % (p_.get('n'), p_.get('t')), ge.sname)
+    rep.floor(clause, 'seek offsets computed from an entry index', n_seek, 1)
